@@ -125,6 +125,7 @@ func main() {
 		}
 	}
 	globals(prog, pkgs, out)
+	errFlow(prog, cg, byPath, *outJSON) // errsites.go: error-flow table (C13/C11) -> errflow.json
 
 	b, _ := json.MarshalIndent(out, "", " ")
 	if err := os.WriteFile(*outJSON, b, 0o644); err != nil {
